@@ -1105,7 +1105,7 @@ def run(ctx):
 def _run(ctx):
     pool()
     quick = ctx.tier == "quick"
-    t_end = ctx.t0 + (100 if quick else 840)
+    t_end = ctx.t0 + (80 if quick else 840)
     # second tie first (cheap)
     strict_tie(ctx, 300 if quick else 3000)
     # 1. witnesses
